@@ -254,6 +254,12 @@ Props ==
                     KindsOf({t \in DOMAIN r.obs.search : S(r.obs.search[t]) # truth[t]}))
             /\ Chk(\A s \in DOMAIN r.obs.shown : \A t \in S(r.obs.shown[s]) : t \in DOMAIN truth /\ \E e \in vis : ToString(e[1]) = s /\ e[1] \in truth[t],
                    r, "C06.ShownRight")
+            \* a view that evaluates undecided tags on demand (what the HTTP API does) shows exactly the tags that hold
+            /\ ChkI(\A e \in vis : ToString(e[1]) \in DOMAIN r.obs.shownAll =>
+                        S(r.obs.shownAll[ToString(e[1])]) = {t \in DOMAIN truth : e[1] \in truth[t]},
+                    r, "C06.ShownRightOnDemand",
+                    KindsOf({t \in DOMAIN tags : \E e \in vis : ToString(e[1]) \in DOMAIN r.obs.shownAll /\
+                                 ((t \in S(r.obs.shownAll[ToString(e[1])])) # (e[1] \in truth[t]))}))
             \* cross-check of the harness against the model's own notion of truth (not a verdict)
             /\ (truth = [t \in DOMAIN tags |-> TruthOf(tags, vis, t)]) \/ Say("nonconf", r, "truth-differs-from-model")
        \* ---- C10
